@@ -582,6 +582,36 @@ def trailing_data_accepted(prog, chk, rid, grams):
     return n
 
 
+def extent(prog, ex, chk, S3, name, ge):
+    """S3 for one encoder: bytes written (linear form) == bytes allocated (shared with C15-U4)."""
+    if ge.alloc is None:
+        chk.unknown(S3, name, 'allocation expression not found')
+    else:
+        w, problems = written(ge.items)
+        a = AllocEval(ex, ge.func).ev(ge.alloc)
+        if a is None:
+            chk.unknown(S3, name, 'allocation expression at %s is outside the modelled subset'
+                        % locstr(ge.alloc))
+        else:
+            wn = _norm(w)
+            an = _norm(a)
+            if wn == an and not problems:
+                chk.ok(S3, '%s: writes %s = allocates %s' % (name, wn.show(), an.show()),
+                       locstr(ge.alloc))
+            else:
+                guard = _size_guard(ge.func, ge.alloc_var, ex, wn, an)
+                if guard and not problems:
+                    chk.ok(S3, '%s: writes %s, allocates %s, equal under guard %s' % (
+                        name, wn.show(), an.show(), guard), locstr(ge.alloc))
+                else:
+                    chk.violation(S3, '%s|extent' % name, locstr(ge.alloc),
+                                  '%s::%s writes %s byte(s) but allocates %s%s: a value for which '
+                                  'these differ is written past the buffer or leaves garbage at '
+                                  'its end' % (_short(ge.func.cls or ''), ge.func.name, wn.show(),
+                                               an.show(), ('; ' + '; '.join(problems)) if problems else ''),
+                                  facts={'written': wn.show(), 'allocated': an.show()})
+
+
 def run(tier='quick'):
     prog = program.load()
     chk = Check('C03', tier)
@@ -625,33 +655,7 @@ def run(tier='quick'):
         chk.analysed(gd.func)
         if ge.unknown or gd.unknown:
             continue
-        # ---- S3
-        if ge.alloc is None:
-            chk.unknown(S3, name, 'allocation expression not found')
-        else:
-            w, problems = written(ge.items)
-            a = AllocEval(ex, ge.func).ev(ge.alloc)
-            if a is None:
-                chk.unknown(S3, name, 'allocation expression at %s is outside the modelled subset'
-                            % locstr(ge.alloc))
-            else:
-                wn = _norm(w)
-                an = _norm(a)
-                if wn == an and not problems:
-                    chk.ok(S3, '%s: writes %s = allocates %s' % (name, wn.show(), an.show()),
-                           locstr(ge.alloc))
-                else:
-                    guard = _size_guard(ge.func, ge.alloc_var, ex, wn, an)
-                    if guard and not problems:
-                        chk.ok(S3, '%s: writes %s, allocates %s, equal under guard %s' % (
-                            name, wn.show(), an.show(), guard), locstr(ge.alloc))
-                    else:
-                        chk.violation(S3, '%s|extent' % name, locstr(ge.alloc),
-                                      '%s::%s writes %s byte(s) but allocates %s%s: a value for which '
-                                      'these differ is written past the buffer or leaves garbage at '
-                                      'its end' % (_short(ge.func.cls or ''), ge.func.name, wn.show(),
-                                                   an.show(), ('; ' + '; '.join(problems)) if problems else ''),
-                                      facts={'written': wn.show(), 'allocated': an.show()})
+        extent(prog, ex, chk, S3, name, ge)
         # ---- S2
         _narrowing(prog, ex, chk, S2, name, ge.func)
         # ---- S4
